@@ -638,4 +638,116 @@ def c17_static(repo):
     return a + b, wa + wb
 
 
-STATIC = {"C16": c16_static, "C17": c17_static}
+# ----------------------------------------------------------------------------------------------- C08
+T_DENSE = """
+def _one_step_with_dense_TimeIndep(self, t0, Ndense, dens_dt, Nt):
+    Ut1 = self._elemental_step_TimeIndep(t0, dens_dt, Nt)
+    Udt = numpy.zeros(Ut1.shape, dtype=COMPLEX)
+    Udt[:, :, :, :] = Ut1[:, :, :, :]
+    for ti in range(H_lo, H_hi):
+        Udt = numpy.tensordot(H_left, H_right)
+    return Udt
+"""
+
+T_REMAINING = """
+def _calculate_remainig_using_first_interval(self, Nt):
+    Udt = self.data[H_first, :, :, :, :]
+    for ti in range(H_lo, H_hi):
+        self.data[ti, :, :, :, :] = numpy.tensordot(H_left, self.data[H_idx, :, :, :, :])
+"""
+
+T_ELEMENTAL = """
+def _elemental_step_TimeIndep(self, t0, dens_dt, Nt):
+    dim = self.ham.dim
+    one_step_time = TimeAxis(t0, 2, self.dense_time.step)
+    prop = ReducedDensityMatrixPropagator(one_step_time, self.ham, RTensor=self.relt, PDeph=self.pdeph)
+    rhonm0 = ReducedDensityMatrix(dim=dim)
+    Ut1 = numpy.zeros((dim, dim, dim, dim), dtype=COMPLEX)
+    for n in range(dim):
+        for m in range(dim):
+            rhonm0.data[H_sr, H_sc] = H_one
+            rhot = prop.propagate(rhonm0)
+            Ut1[:, :, H_tr, H_tc] = rhot.data[H_tidx, :, :]
+            rhonm0.data[H_sr, H_sc] = H_zero
+    return Ut1
+"""
+
+C08_FILE = """(* GENERATED on every run by harness/translate2.py from quantarhei/qm/liouvillespace/evolutionsuperoperator.py:
+   _elemental_step_TimeIndep, _one_step_with_dense_TimeIndep, _calculate_remainig_using_first_interval *)
+From Coq Require Import ZArith List Bool Arith Lia.
+From QV Require Import Base.Alg Base.Sums Base.Mat Base.Tens Base.TensId Model.C08 Proofs.C08gen.
+Import ListNotations.
+Open Scope Z_scope.
+Section Gen08.
+  Context {R : StarRing}.
+  Variable n : nat.
+  (* one dense step applied to the matrix that is %(one)s at (%(sr)s, %(sc)s) and zero elsewhere, stored at [:, :, %(tr)s, %(tc)s];
+     the propagated state is read at time index %(tidx)s of a two-point axis *)
+  Definition g_unit (p q : nat) : @mat R := fun i j => if Nat.eqb i %(sr)s && Nat.eqb j %(sc)s then %(one)s else %(zero)s.
+  Definition g_elemental (step : @mat R -> @mat R) : @tens R := tab4 n (fun a b %(tr)s %(tc)s => step (g_unit p q) a b).
+  Definition g_tidx : Z := %(tidx)s.
+  Lemma gen_elemental_is_model : forall step, g_elemental step = elemental n step /\\ g_tidx = 1.
+  Proof. intros step. split; reflexivity. Qed.
+
+  Definition g_dense_lo : Z := %(dlo)s.
+  Definition g_dense_hi (dense_length : Z) : Z := %(dhi)s.
+  Definition g_dense_f (Ut1 Udt : @tens R) : @tens R := tab4 n (tcomp n %(dl)s %(dr)s).
+  Lemma gen_dense_is_model : forall (Nd : nat) (U1 : @tens R),
+    loop_skel g_dense_lo (g_dense_hi (Z.of_nat Nd + 1)) (g_dense_f U1) U1 = one_step_dense n Nd U1.
+  Proof. intros Nd U1. apply dense_skel_is_model; unfold g_dense_lo, g_dense_hi, g_dense_f; intros; first [reflexivity | lia]. Qed.
+
+  Definition g_rem_first : Z := %(first)s.
+  Definition g_rem_lo : Z := %(rlo)s.
+  Definition g_rem_hi (Nt : Z) : Z := %(rhi)s.
+  Definition g_rem_idx (ti : Z) : Z := %(ridx)s.
+  Definition g_rem_f (Udt Y : @tens R) : @tens R := tab4 n (tcomp n %(rl)s Y).
+  Lemma gen_remaining_is_model : forall (Nt : nat) (Udt : @tens R) (d : nat -> @tens R), (2 <= Nt)%%nat -> d 0%%nat = tid -> d 1%%nat = Udt ->
+    map (remaining_skel g_rem_lo (g_rem_hi (Z.of_nat Nt)) g_rem_idx (g_rem_f (d (Z.to_nat g_rem_first))) d) (seq 0 Nt) = calc_all n Nt Udt.
+  Proof.
+    intros Nt Udt d HNt H0 H1.
+    assert (Hfirst : Z.to_nat g_rem_first = 1%%nat) by (unfold g_rem_first; lia). rewrite Hfirst, H1.
+    apply remaining_skel_is_model; unfold g_rem_lo, g_rem_hi, g_rem_idx, g_rem_f; intros; first [assumption | reflexivity | lia].
+  Qed.
+End Gen08.
+"""
+
+
+def _float01(node):
+    if isinstance(node, ast.Constant) and isinstance(node.value, (int, float)) and not isinstance(node.value, bool) and node.value in (0, 1):
+        return "(r1 R)" if node.value == 1 else "(r0 R)"
+    raise Untranslatable("constant %s" % ast.unparse(node))
+
+
+def c08_static(repo):
+    f = repo + "/quantarhei/qm/liouvillespace/evolutionsuperoperator.py"
+    out = {}
+    env = match(f, "EvolutionSuperOperator._elemental_step_TimeIndep", T_ELEMENTAL)
+    for h in ("sr", "sc", "tr", "tc"):
+        node = env["H_" + h]
+        if not (isinstance(node, ast.Name) and node.id in ("n", "m")):
+            raise Untranslatable("elemental step index %s" % ast.unparse(node))
+        out[h] = {"n": "p", "m": "q"}[node.id]
+    if {out["tr"], out["tc"]} != {"p", "q"}:
+        raise Untranslatable("elemental step stores both results under the same index")
+    out["one"], out["zero"] = _float01(env["H_one"]), _float01(env["H_zero"])
+    out["tidx"] = Expr("Z", {}).e(env["H_tidx"])
+    env = match(f, "EvolutionSuperOperator._one_step_with_dense_TimeIndep", T_DENSE)
+    at = {"self.dense_time.length": "dense_length"}
+    out["dlo"], out["dhi"] = zexpr(env, "H_lo", {}, at), zexpr(env, "H_hi", {}, at)
+    for h, k in (("H_left", "dl"), ("H_right", "dr")):
+        node = env[h]
+        if not (isinstance(node, ast.Name) and node.id in ("Ut1", "Udt")):
+            raise Untranslatable("dense step contracts %s" % ast.unparse(node))
+        out[k] = node.id
+    env = match(f, "EvolutionSuperOperator._calculate_remainig_using_first_interval", T_REMAINING)
+    out["first"] = Expr("Z", {}).e(env["H_first"])
+    out["rlo"], out["rhi"] = zexpr(env, "H_lo", {"Nt": "Nt"}), zexpr(env, "H_hi", {"Nt": "Nt"})
+    out["ridx"] = zexpr(env, "H_idx", {"ti": "ti", "Nt": "Nt"})
+    if not (isinstance(env["H_left"], ast.Name) and env["H_left"].id == "Udt"):
+        raise Untranslatable("remaining steps contract %s" % ast.unparse(env["H_left"]))
+    out["rl"] = "Udt"
+    return C08_FILE % out, ["evolutionsuperoperator.py:_elemental_step_TimeIndep", "evolutionsuperoperator.py:_one_step_with_dense_TimeIndep",
+                            "evolutionsuperoperator.py:_calculate_remainig_using_first_interval"]
+
+
+STATIC = {"C16": c16_static, "C17": c17_static, "C08": c08_static}
